@@ -11,14 +11,16 @@ PARTIAL.  Proved for every input: the tables; the header; all body-less classes;
 and deliver_sm_resp; the mandatory-field layout of submit_sm / deliver_sm (order, widths, C-octet
 termination) for every in-range field assignment; integer TLVs.  Not proved, decided by the
 correspondence and the independent encoder of tools/spec/smpp.py only: bind / bind_resp bodies,
-string TLVs, the choice of data_coding and text bytes inside `smBody`, and the whole decoding
-direction for PDUs the library never emits (the model's decoder is run on them; there is no theorem
-`decode (Spec.encodePdu …) = …`).  One such shape was decoded wrongly by the code (a UDH whose
+string TLVs, the choice of data_coding and text bytes inside `smBody`, and — in the decoding direction —
+everything beyond the mandatory fields and message_payload (`decode_mandatory_fields`,
+`decode_message_payload`): TLV permutations, omitted response bodies, sc_interface_version, UDH, NUL-terminated
+octet strings (the model's decoder is run on such PDUs by the correspondence).  One such shape was decoded wrongly by the code (a UDH whose
 first element is not the concatenation element); repaired, see `udh_port_first_decoded`.
 -/
 import SmppVerif.Lemmas.SpecTables
 import SmppVerif.Lemmas.SpecEncode
 import SmppVerif.Model.PduDecode
+import SmppVerif.Lemmas.SmRead
 
 namespace SmppVerif.Props.C04
 open SmppVerif SmppVerif.Pdu SmppVerif.Spec.Smpp SmppVerif.Lemmas
@@ -81,6 +83,55 @@ theorem tlv_int (tag v w : Nat) (htag : tag < 65536) (hk : tagInfo tag = (0, w))
     tlvBytes ⟨tag, .int v⟩ = .ok (OptParam.bytes ⟨tag, be w v⟩) :=
   SpecEncode.tlvBytes_int_eq_spec tag v w htag hk hw hv
 
+/-- DECODING DIRECTION, mandatory fields: a submit_sm / deliver_sm body laid out as §4.4.1 / §4.6.1
+    prescribe (whoever built it), text in short_message, is decoded to the field values it was built
+    from — for every in-range value of every field. -/
+theorem decode_mandatory_fields (hd : List Nat) (h16 : hd.length = 16) (h : Header) (dflt enc : Enc)
+    (svc : List Nat) (ston snpi : Nat) (snum : List Nat) (dton dnpi : Nat) (dnum : List Nat)
+    (esm pid prio : Nat) (sched valid : List Nat) (reg repl dc defId : Nat) (sm text : List Nat)
+    (schedT validT : Time.TimeObj)
+    (w : Lemmas.SmRead.FieldsOK svc ston snpi snum dton dnpi dnum sched valid)
+    (henc : (if dc = 0 then Except.ok dflt else encOfDataCoding dc) = .ok enc)
+    (hdm : decodeMessage esm (decodeCodec enc) sm = .ok (text, []))
+    (hts : Time.fromSmpp sched = .ok schedT) (htv : Time.fromSmpp valid = .ok validT)
+    (hsvc : svc.length ≤ 5) (htext : text ≠ [])
+    (hlen : h.pduLength = (hd ++ Lemmas.SmRead.mandatory svc ston snpi snum dton dnpi dnum esm pid prio sched valid reg repl dc defId sm []).length) :
+    smFromPdu (hd ++ Lemmas.SmRead.mandatory svc ston snpi snum dton dnpi dnum esm pid prio sched valid reg repl dc defId sm []) h dflt =
+      .ok { seq := h.seq, status := 0, shortMessage := text,
+            source := ⟨snum, ston, snpi⟩, dest := ⟨dnum, dton, dnpi⟩, serviceType := svc,
+            esmClass := esm, protocolId := pid, priorityFlag := prio, schedule := schedT, validity := validT,
+            registeredDelivery := reg, replaceIfPresent := repl,
+            encoding := if enc.name = str Gen.Consts.defaultEncoding then none else some enc,
+            smDefaultMsgId := defId, messagePayload := [], optionalParams := [] } :=
+  Lemmas.SmRead.smFromPdu_short hd h16 h dflt enc svc ston snpi snum dton dnpi dnum esm pid prio sched valid reg repl dc
+    defId sm text schedT validT w henc hdm hts htv hsvc htext hlen
+
+/-- DECODING DIRECTION, message_payload: the same body with an empty short_message and the text in a
+    message_payload parameter (tag 0x0424, two-octet length). -/
+theorem decode_message_payload (hd : List Nat) (h16 : hd.length = 16) (h : Header) (dflt enc : Enc)
+    (svc : List Nat) (ston snpi : Nat) (snum : List Nat) (dton dnpi : Nat) (dnum : List Nat)
+    (esm pid prio : Nat) (sched valid : List Nat) (reg repl dc defId : Nat) (pbytes text : List Nat)
+    (thi tlo lhi llo : Nat) (schedT validT : Time.TimeObj)
+    (w : Lemmas.SmRead.FieldsOK svc ston snpi snum dton dnpi dnum sched valid)
+    (henc : (if dc = 0 then Except.ok dflt else encOfDataCoding dc) = .ok enc)
+    (hdm0 : decodeMessage esm (decodeCodec enc) [] = .ok ([], []))
+    (hdm : decodeMessage esm (decodeCodec enc) pbytes = .ok (text, []))
+    (htag : thi * 256 + tlo = Gen.Tlv.messagePayload) (hl : lhi * 256 + llo = pbytes.length)
+    (hts : Time.fromSmpp sched = .ok schedT) (htv : Time.fromSmpp valid = .ok validT)
+    (hsvc : svc.length ≤ 5) (htext : text ≠ [])
+    (hlen : h.pduLength = (hd ++ Lemmas.SmRead.mandatory svc ston snpi snum dton dnpi dnum esm pid prio sched valid reg repl dc defId []
+        (thi :: tlo :: lhi :: llo :: pbytes)).length) :
+    smFromPdu (hd ++ Lemmas.SmRead.mandatory svc ston snpi snum dton dnpi dnum esm pid prio sched valid reg repl dc defId []
+        (thi :: tlo :: lhi :: llo :: pbytes)) h dflt =
+      .ok { seq := h.seq, status := 0, shortMessage := [],
+            source := ⟨snum, ston, snpi⟩, dest := ⟨dnum, dton, dnpi⟩, serviceType := svc,
+            esmClass := esm, protocolId := pid, priorityFlag := prio, schedule := schedT, validity := validT,
+            registeredDelivery := reg, replaceIfPresent := repl,
+            encoding := if enc.name = str Gen.Consts.defaultEncoding then none else some enc,
+            smDefaultMsgId := defId, messagePayload := text, optionalParams := [] } :=
+  Lemmas.SmRead.smFromPdu_payload hd h16 h dflt enc svc ston snpi snum dton dnpi dnum esm pid prio sched valid reg repl dc
+    defId pbytes text thi tlo lhi llo schedT validT w henc hdm0 hdm htag hl hts htv hsvc htext hlen
+
 /-- non-vacuity: a default SubmitSm is in range; sar_msg_ref_num is a 2-octet integer tag -/
 example : SpecEncode.SmWF ({ shortMessage := [72, 105], source := ⟨[49], 1, 1⟩ } : Sm) := by
   constructor <;> simp
@@ -113,4 +164,6 @@ end SmppVerif.Props.C04
 #print axioms SmppVerif.Props.C04.sm_resp
 #print axioms SmppVerif.Props.C04.sm_mandatory_layout
 #print axioms SmppVerif.Props.C04.tlv_int
+#print axioms SmppVerif.Props.C04.decode_mandatory_fields
+#print axioms SmppVerif.Props.C04.decode_message_payload
 #print axioms SmppVerif.Props.C04.udh_port_first_decoded
